@@ -17,7 +17,10 @@ static inline void vfh_mpz(mpz_ptr r, long lo, long hi) { mpz_set_si(r, vfh_rang
 #endif
 static unsigned vfh_draws = 0; static unsigned long vfh_lastcoin = 0;
 // a harness may fix the next coin(s) to concrete values (slices): consumed before symbolic draws
-static long vfh_fixed[4] = { -1, -1, -1, -1 }; static unsigned vfh_nfixed = 0, vfh_fixed_used = 0;
+static long vfh_fixed[16]; static unsigned vfh_nfixed = 0, vfh_fixed_used = 0;
+// log of the coins drawn so far (so that a harness can run a party twice with identical coins)
+static unsigned long vfh_coinlog[24]; static unsigned vfh_ncoins = 0;
+static inline void vfh_replay_coins(unsigned from, unsigned to) { vfh_nfixed = 0; vfh_fixed_used = 0; for (unsigned i = from; i < to && vfh_nfixed < 16; ++i) vfh_fixed[vfh_nfixed++] = (long)vfh_coinlog[i]; }
 static inline void vfh_fix_next(long v) { vfh_fixed[vfh_nfixed++] = v; }
 static inline void vfh_coin_mod(mpz_ptr r, mpz_srcptr m) {
   vf_assume(++vfh_draws <= H_MAXDRAWS);
@@ -25,6 +28,7 @@ static inline void vfh_coin_mod(mpz_ptr r, mpz_srcptr m) {
   vf_assume(mpz_sgn(m) > 0);
   if (vfh_fixed_used < vfh_nfixed) { vfh_lastcoin = (unsigned long)vfh_fixed[vfh_fixed_used++] % mm; }
   else vfh_lastcoin = vf_nondet_below(mm);
+  if (vfh_ncoins < 24) vfh_coinlog[vfh_ncoins] = vfh_lastcoin; ++vfh_ncoins;
   mpz_set_ui(r, vfh_lastcoin);
 }
 static inline void vfh_coin_bits(mpz_ptr r, unsigned long bits) {
